@@ -1,15 +1,852 @@
-//! C16 — not built yet.
+//! C16 — events survive a JSON round trip, the format is the documented one, and the tag
+//! decoder is total over known-kind objects with missing / extra / contradictory fields.
+//!
+//! Part R (round trip + format). Tag alphabet, enumerated completely:
+//!   all 41 `FileEventKind` values (names composed here from the variant names, not taken
+//!   from `Debug` nor from the decoder's table); the 7 first-class signals and `Custom(n)` for
+//!   n in {0..=64, 66, i32::MIN, i32::MAX}; `ProcessCompletion` of None / Success / Continued /
+//!   ExitError(+-1, 255, 256, i32 MIN/MAX, i64 MIN/MAX) / ExitSignal(every signal above) /
+//!   ExitStop and Exception(+-1, 255, 256, i32 MIN/MAX); all 6 `Source`s; `Keyboard::Eof`;
+//!   `Process(0, 1, 123, u32::MAX)`; `Path` over {"/", "/a b", "/é/ü", "rel/x", ""} x
+//!   {no type, file, dir, symlink, other}; `Unknown`.
+//!   Events = every tag sequence of length <= 2 (thorough <= 3) x metadata in {none, one key,
+//!   two keys inserted in either order}.
+//!   Oracle: `from_str(to_string(e)) == e`; the text parsed as generic JSON has only the
+//!   documented members (`tags`, `metadata`; each may be omitted when empty) and every tag
+//!   object equals the documented object for that tag (doc/watchexec.1.md "--emit-events-to",
+//!   signal names as pinned by crates/events/tests/snapshots). The representation of
+//!   `Tag::Unknown` is not documented: only its round trip is demanded.
+//!
+//! Part D (decoder totality, reference = JsonTagDecoder below). Every JSON object formed by
+//!   kind in 8 kinds x each of the 10 optional members in {absent, valid value(s),
+//!   contradictory value(s)} x {no unknown member, one unknown member}; plus, in both tiers,
+//!   the complete `simple` x `full` table (6 x 43) under every kind.
+//!   Oracle: the object parses (never an error) and gives the kind's tag built from exactly
+//!   the given values when the required members are present and consistent, `Tag::Unknown`
+//!   otherwise, and never a tag of another kind.
+//!
+//! Deviations from DESIGN section 7 / deliberate exclusions (to demand no more than the statement):
+//!   * member value sets are not uniformly 3 (resp. 4) wide: `disposition` takes all 8 states
+//!     and `code` 5 (thorough 9) because consistency is defined across these two; `keycode`
+//!     has a single legal value. quick = 3.7e6 objects, thorough = 9.3e7.
+//!   * ill-typed or out-of-vocabulary values (`"pid": -1`, `"filetype": "bogus"`) are neither
+//!     missing, extra nor contradictory: they are outside the statement. They are probed and
+//!     only counted (`ill_typed_*` in the evidence), never reported.
+//!   * where "contradictory" is debatable the verdict is loosened to "Unknown or the tag of
+//!     that kind", never another kind, never an error: `simple` disagreeing with `full`,
+//!     `full` outside the vocabulary, a `code`/`signal` member next to a disposition that has
+//!     none, and the two lossy shapes the repository's own snapshot pins (`fs` with only
+//!     `simple`, `completion` without `disposition`).
+//!   * key order / byte stability of the metadata object is not demanded (not in the statement).
+
+use std::{
+	collections::HashMap,
+	num::{NonZeroI32, NonZeroI64},
+	path::PathBuf,
+	time::{Duration, Instant},
+};
+
 use dex::orch::Tier;
-use serde_json::Value;
+use serde_json::{json, Map, Value};
+use watchexec_events::{
+	filekind::{
+		AccessKind, AccessMode, CreateKind, DataChange, FileEventKind, MetadataKind, ModifyKind,
+		RemoveKind, RenameMode,
+	},
+	Event, FileType, Keyboard, ProcessEnd, Source, Tag,
+};
+use watchexec_signals::Signal;
 
-use crate::common::EnumOut;
+use crate::common::{par_map, EnumOut};
 
-pub fn replay(_input: &Value) -> Vec<(String, String)> {
-	vec![]
+// ---------------------------------------------------------------------------------------
+// documented vocabulary (written from doc/watchexec.1.md, the type docs and the snapshots)
+
+/// (documented "full" name, value, documented "simple" class)
+pub(crate) fn fs_table() -> Vec<(String, FileEventKind, &'static str)> {
+	use FileEventKind as K;
+	let modes = [
+		("Any", AccessMode::Any),
+		("Execute", AccessMode::Execute),
+		("Read", AccessMode::Read),
+		("Write", AccessMode::Write),
+		("Other", AccessMode::Other),
+	];
+	let mut t: Vec<(String, FileEventKind, &'static str)> = vec![("Any".into(), K::Any, "other")];
+	t.push(("Access(Any)".into(), K::Access(AccessKind::Any), "access"));
+	t.push(("Access(Read)".into(), K::Access(AccessKind::Read), "access"));
+	for (n, m) in modes {
+		t.push((format!("Access(Open({n}))"), K::Access(AccessKind::Open(m)), "access"));
+	}
+	for (n, m) in modes {
+		t.push((format!("Access(Close({n}))"), K::Access(AccessKind::Close(m)), "access"));
+	}
+	t.push(("Access(Other)".into(), K::Access(AccessKind::Other), "access"));
+	for (n, c) in [("Any", CreateKind::Any), ("File", CreateKind::File), ("Folder", CreateKind::Folder), ("Other", CreateKind::Other)] {
+		t.push((format!("Create({n})"), K::Create(c), "create"));
+	}
+	t.push(("Modify(Any)".into(), K::Modify(ModifyKind::Any), "modify"));
+	for (n, d) in [("Any", DataChange::Any), ("Size", DataChange::Size), ("Content", DataChange::Content), ("Other", DataChange::Other)] {
+		t.push((format!("Modify(Data({n}))"), K::Modify(ModifyKind::Data(d)), "modify"));
+	}
+	for (n, m) in [
+		("Any", MetadataKind::Any),
+		("AccessTime", MetadataKind::AccessTime),
+		("WriteTime", MetadataKind::WriteTime),
+		("Permissions", MetadataKind::Permissions),
+		("Ownership", MetadataKind::Ownership),
+		("Extended", MetadataKind::Extended),
+		("Other", MetadataKind::Other),
+	] {
+		t.push((format!("Modify(Metadata({n}))"), K::Modify(ModifyKind::Metadata(m)), "modify"));
+	}
+	for (n, r) in [("Any", RenameMode::Any), ("To", RenameMode::To), ("From", RenameMode::From), ("Both", RenameMode::Both), ("Other", RenameMode::Other)] {
+		t.push((format!("Modify(Name({n}))"), K::Modify(ModifyKind::Name(r)), "modify"));
+	}
+	t.push(("Modify(Other)".into(), K::Modify(ModifyKind::Other), "modify"));
+	for (n, r) in [("Any", RemoveKind::Any), ("File", RemoveKind::File), ("Folder", RemoveKind::Folder), ("Other", RemoveKind::Other)] {
+		t.push((format!("Remove({n})"), K::Remove(r), "remove"));
+	}
+	t.push(("Other".into(), K::Other, "other"));
+	t
 }
 
-pub fn run(_tier: Tier, _seed: u64) -> EnumOut {
-	let mut o = EnumOut::new("not built");
-	o.machinery = Some("check not built yet".into());
-	o
+fn simple_any(s: &str) -> Option<FileEventKind> {
+	Some(match s {
+		"access" => FileEventKind::Access(AccessKind::Any),
+		"create" => FileEventKind::Create(CreateKind::Any),
+		"modify" => FileEventKind::Modify(ModifyKind::Any),
+		"remove" => FileEventKind::Remove(RemoveKind::Any),
+		"other" => FileEventKind::Other,
+		_ => return None,
+	})
+}
+
+/// The documented class of a value, by its constructor (independent of the table above).
+fn class_of(k: &FileEventKind) -> &'static str {
+	match k {
+		FileEventKind::Access(_) => "access",
+		FileEventKind::Create(_) => "create",
+		FileEventKind::Modify(_) => "modify",
+		FileEventKind::Remove(_) => "remove",
+		_ => "other",
+	}
+}
+
+const NAMED_SIGNALS: [(&str, Signal); 7] = [
+	("SIGHUP", Signal::Hangup),
+	("SIGINT", Signal::Interrupt),
+	("SIGQUIT", Signal::Quit),
+	("SIGKILL", Signal::ForceStop),
+	("SIGUSR1", Signal::User1),
+	("SIGUSR2", Signal::User2),
+	("SIGTERM", Signal::Terminate),
+];
+
+/// JSON literal (name or number) -> signal
+fn sig_of(v: &Value) -> Option<Signal> {
+	if let Some(s) = v.as_str() {
+		return NAMED_SIGNALS.iter().find(|(n, _)| *n == s).map(|(_, s)| *s);
+	}
+	v.as_i64().and_then(|n| i32::try_from(n).ok()).map(Signal::Custom)
+}
+
+const FILETYPES: [(&str, FileType); 4] = [("file", FileType::File), ("dir", FileType::Dir), ("symlink", FileType::Symlink), ("other", FileType::Other)];
+const SOURCES: [(&str, Source); 6] = [
+	("filesystem", Source::Filesystem),
+	("keyboard", Source::Keyboard),
+	("mouse", Source::Mouse),
+	("os", Source::Os),
+	("time", Source::Time),
+	("internal", Source::Internal),
+];
+
+fn filetype_of(s: &str) -> Option<FileType> {
+	FILETYPES.iter().find(|(n, _)| *n == s).map(|(_, f)| *f)
+}
+fn source_of(s: &str) -> Option<Source> {
+	SOURCES.iter().find(|(n, _)| *n == s).map(|(_, f)| *f)
+}
+
+// ---------------------------------------------------------------------------------------
+// Part R: alphabet
+
+struct Sym {
+	/// self-describing spec (what `replay` rebuilds the tag from)
+	spec: Value,
+	tag: Tag,
+	/// documented JSON object; None = representation not documented (Tag::Unknown)
+	json: Option<Value>,
+	class: String,
+}
+
+fn build(spec: &Value, fs: &[(String, FileEventKind, &'static str)]) -> Option<Sym> {
+	let (tag, js, class): (Tag, Option<Value>, String) = match spec["t"].as_str()? {
+		"fs" => {
+			let name = spec["full"].as_str()?;
+			let (_, k, simple) = fs.iter().find(|(n, _, _)| n == name)?;
+			(Tag::FileEventKind(*k), Some(json!({"kind": "fs", "simple": simple, "full": name})), format!("fs/{name}"))
+		}
+		"signal" => {
+			let s = sig_of(&spec["sig"])?;
+			let class = spec["sig"].as_str().map_or("signal/custom".to_string(), |n| format!("signal/{n}"));
+			(Tag::Signal(s), Some(json!({"kind": "signal", "signal": spec["sig"]})), class)
+		}
+		"completion" => {
+			let d = spec["d"].as_str()?;
+			let code = spec["code"].as_i64();
+			let end = match d {
+				"unknown" => None,
+				"success" => Some(ProcessEnd::Success),
+				"continued" => Some(ProcessEnd::Continued),
+				"error" => Some(ProcessEnd::ExitError(NonZeroI64::new(code?)?)),
+				"stop" => Some(ProcessEnd::ExitStop(NonZeroI32::new(i32::try_from(code?).ok()?)?)),
+				"exception" => Some(ProcessEnd::Exception(NonZeroI32::new(i32::try_from(code?).ok()?)?)),
+				"signal" => Some(ProcessEnd::ExitSignal(sig_of(&spec["sig"])?)),
+				_ => return None,
+			};
+			let mut o = Map::new();
+			o.insert("kind".into(), json!("completion"));
+			o.insert("disposition".into(), json!(d));
+			match d {
+				"error" | "stop" | "exception" => {
+					o.insert("code".into(), json!(code?));
+				}
+				"signal" => {
+					o.insert("signal".into(), spec["sig"].clone());
+				}
+				_ => {}
+			}
+			(Tag::ProcessCompletion(end), Some(Value::Object(o)), format!("completion/{d}"))
+		}
+		"path" => {
+			let p = spec["path"].as_str()?;
+			let mut o = Map::new();
+			o.insert("kind".into(), json!("path"));
+			o.insert("absolute".into(), json!(p));
+			let ft = match spec["ft"].as_str() {
+				Some(f) => {
+					o.insert("filetype".into(), json!(f));
+					Some(filetype_of(f)?)
+				}
+				None => None,
+			};
+			(Tag::Path { path: PathBuf::from(p), file_type: ft }, Some(Value::Object(o)), "path".into())
+		}
+		"source" => {
+			let v = spec["v"].as_str()?;
+			(Tag::Source(source_of(v)?), Some(json!({"kind": "source", "source": v})), format!("source/{v}"))
+		}
+		"keyboard" => (Tag::Keyboard(Keyboard::Eof), Some(json!({"kind": "keyboard", "keycode": "eof"})), "keyboard".into()),
+		"process" => {
+			let pid = u32::try_from(spec["pid"].as_u64()?).ok()?;
+			(Tag::Process(pid), Some(json!({"kind": "process", "pid": pid})), "process".into())
+		}
+		"unknown" => (Tag::Unknown, None, "unknown".into()),
+		_ => return None,
+	};
+	Some(Sym { spec: spec.clone(), tag, json: js, class })
+}
+
+fn signal_literals() -> Vec<Value> {
+	let mut v: Vec<Value> = NAMED_SIGNALS.iter().map(|(n, _)| json!(n)).collect();
+	for n in 0..=64 {
+		v.push(json!(n));
+	}
+	for n in [66, i32::MIN, i32::MAX] {
+		v.push(json!(n));
+	}
+	v
+}
+
+fn alphabet_specs(fs: &[(String, FileEventKind, &'static str)]) -> Vec<Value> {
+	let mut a = vec![];
+	for (name, _, _) in fs {
+		a.push(json!({"t": "fs", "full": name}));
+	}
+	let sigs = signal_literals();
+	for s in &sigs {
+		a.push(json!({"t": "signal", "sig": s}));
+	}
+	for d in ["unknown", "success", "continued"] {
+		a.push(json!({"t": "completion", "d": d}));
+	}
+	let i32s: [i64; 6] = [1, -1, 255, 256, i32::MIN.into(), i32::MAX.into()];
+	for c in i32s.iter().copied().chain([i64::MIN, i64::MAX]) {
+		a.push(json!({"t": "completion", "d": "error", "code": c}));
+	}
+	for s in &sigs {
+		a.push(json!({"t": "completion", "d": "signal", "sig": s}));
+	}
+	for d in ["stop", "exception"] {
+		for c in i32s {
+			a.push(json!({"t": "completion", "d": d, "code": c}));
+		}
+	}
+	for (n, _) in SOURCES {
+		a.push(json!({"t": "source", "v": n}));
+	}
+	a.push(json!({"t": "keyboard"}));
+	for pid in [0u32, 1, 123, u32::MAX] {
+		a.push(json!({"t": "process", "pid": pid}));
+	}
+	for p in ["/", "/a b", "/é/ü", "rel/x", ""] {
+		a.push(json!({"t": "path", "path": p, "ft": null}));
+		for (f, _) in FILETYPES {
+			a.push(json!({"t": "path", "path": p, "ft": f}));
+		}
+	}
+	a.push(json!({"t": "unknown"}));
+	a
+}
+
+const N_META: usize = 4;
+fn metadata(variant: usize) -> (HashMap<String, Vec<String>>, Value) {
+	let mut m = HashMap::new();
+	let a = ("a-key".to_string(), vec!["1".to_string(), "2".to_string()]);
+	let b = ("é".to_string(), vec!["ü".to_string()]);
+	match variant {
+		1 => {
+			m.insert("notify-backend".to_string(), vec!["inotify".to_string()]);
+			(m, json!({"notify-backend": ["inotify"]}))
+		}
+		2 => {
+			m.insert(a.0, a.1);
+			m.insert(b.0, b.1);
+			(m, json!({"a-key": ["1", "2"], "é": ["ü"]}))
+		}
+		3 => {
+			m.insert(b.0, b.1);
+			m.insert(a.0, a.1);
+			(m, json!({"a-key": ["1", "2"], "é": ["ü"]}))
+		}
+		_ => (m, json!({})),
+	}
+}
+
+/// One event through the real serialiser and parser. Returns (violations, serialised text).
+fn eval_roundtrip(tags: &[&Sym], meta: usize) -> (Vec<(String, String)>, Option<String>) {
+	let mut v = vec![];
+	let (md, md_json) = metadata(meta);
+	let ev = Event { tags: tags.iter().map(|s| s.tag.clone()).collect(), metadata: md };
+	let first_class = || tags.first().map_or("empty-event".to_string(), |s| s.class.clone());
+	let text = match serde_json::to_string(&ev) {
+		Ok(t) => t,
+		Err(e) => {
+			v.push((format!("C16/serialise-failed/{}", first_class()), format!("{ev:?} does not serialise: {e}")));
+			return (v, None);
+		}
+	};
+	match serde_json::from_str::<Event>(&text) {
+		Err(e) => v.push((format!("C16/roundtrip/parse-failed/{}", first_class()), format!("{ev:?} serialises to {text} which does not parse back: {e}"))),
+		Ok(back) if back == ev => {}
+		Ok(back) => {
+			let culprit = if back.tags.len() != ev.tags.len() {
+				"tag-count".to_string()
+			} else if let Some(i) = (0..ev.tags.len()).find(|&i| back.tags[i] != ev.tags[i]) {
+				tags[i].class.clone()
+			} else {
+				"metadata".to_string()
+			};
+			v.push((format!("C16/roundtrip/{culprit}"), format!("{ev:?} serialises to {text} which parses back as {back:?}")));
+		}
+	}
+	// the documented shape, on the text as any JSON consumer sees it
+	match serde_json::from_str::<Value>(&text) {
+		Ok(Value::Object(o)) => {
+			for k in o.keys() {
+				if k != "tags" && k != "metadata" {
+					v.push(("C16/format/event/undocumented-member".into(), format!("event object has member {k:?}: {text}")));
+				}
+			}
+			match o.get("tags") {
+				None if tags.is_empty() => {}
+				Some(Value::Array(arr)) if arr.len() == tags.len() => {
+					for (i, s) in tags.iter().enumerate() {
+						match &s.json {
+							Some(want) if &arr[i] != want => {
+								v.push((format!("C16/format/{}", s.class), format!("{:?} is written as {} but the documented object is {want}", s.tag, arr[i])));
+							}
+							None if !arr[i].is_object() => v.push((format!("C16/format/{}", s.class), format!("{:?} is written as {}, not an object", s.tag, arr[i]))),
+							_ => {}
+						}
+					}
+				}
+				other => v.push(("C16/format/event/tags".into(), format!("`tags` of an event with {} tags is {other:?}", tags.len()))),
+			}
+			match o.get("metadata") {
+				None if meta == 0 => {}
+				Some(m) if *m == md_json => {}
+				other => v.push(("C16/format/event/metadata".into(), format!("`metadata` is {other:?}, expected {md_json}"))),
+			}
+		}
+		other => v.push(("C16/format/event/not-an-object".into(), format!("serialised event is {other:?}"))),
+	}
+	(v, Some(text))
+}
+
+// ---------------------------------------------------------------------------------------
+// Part D: JsonTagDecoder (reference) and the object grammar
+
+const KINDS: [&str; 8] = ["none", "path", "fs", "source", "keyboard", "process", "signal", "completion"];
+const FIELDS: [&str; 10] = ["absolute", "filetype", "simple", "full", "source", "keycode", "pid", "signal", "disposition", "code"];
+const EXTRA_MEMBER: &str = "x-not-a-documented-member";
+
+/// What the statement allows as the result of parsing one object.
+struct Expect {
+	main: Tag,
+	/// Tag::Unknown is acceptable as well (debatable contradiction / lossy shape)
+	alt_unknown: bool,
+	/// any FileEventKind whose class is listed is acceptable as well
+	fs_loose: Option<Vec<&'static str>>,
+	/// stable description of the input class
+	class: String,
+}
+
+fn kind_discriminant(kind: &str) -> &'static str {
+	match kind {
+		"path" => "Path",
+		"fs" => "FileEventKind",
+		"source" => "Source",
+		"keyboard" => "Keyboard",
+		"process" => "Process",
+		"signal" => "Signal",
+		"completion" => "ProcessCompletion",
+		_ => "Unknown",
+	}
+}
+
+/// The reference decoder: `f[i]` is the value of member FIELDS[i] (None = absent).
+fn model(kind: &str, f: &[Option<&Value>; 10], fs: &[(String, FileEventKind, &'static str)]) -> Expect {
+	let [absolute, filetype, simple, full, source, keycode, pid, signal, disposition, code] = *f;
+	let exact = |main: Tag, class: String| Expect { main, alt_unknown: false, fs_loose: None, class };
+	let presence = |name: &str, present: bool| if present { name.to_string() } else { format!("no-{name}") };
+	match kind {
+		"path" => match absolute.and_then(Value::as_str) {
+			Some(p) => exact(
+				Tag::Path { path: PathBuf::from(p), file_type: filetype.and_then(Value::as_str).and_then(filetype_of) },
+				"absolute".into(),
+			),
+			None => exact(Tag::Unknown, "no-absolute".into()),
+		},
+		"fs" => {
+			let s = simple.and_then(Value::as_str);
+			let fl = full.and_then(Value::as_str);
+			let looked = fl.map(|n| fs.iter().find(|(name, _, _)| name == n));
+			let sname = s.unwrap_or("absent");
+			match (s, looked) {
+				(None, None) => exact(Tag::Unknown, "no-simple/no-full".into()),
+				// only the lossy class is given: pinned by the repository's asymmetric snapshot
+				(Some(sv), None) => Expect {
+					main: simple_any(sv).map_or(Tag::Unknown, Tag::FileEventKind),
+					alt_unknown: true,
+					fs_loose: None,
+					class: format!("simple-{sname}/no-full"),
+				},
+				(None, Some(Some((_, k, _)))) => exact(Tag::FileEventKind(*k), "no-simple/full-in-vocabulary".into()),
+				(Some(sv), Some(Some((_, k, c)))) if *c == sv => exact(Tag::FileEventKind(*k), "simple-agrees-with-full".into()),
+				(Some(sv), Some(Some((_, k, c)))) => Expect {
+					main: Tag::FileEventKind(*k),
+					alt_unknown: true,
+					fs_loose: Some(vec![*c, simple_any(sv).as_ref().map_or("other", class_of)]),
+					class: "simple-contradicts-full".into(),
+				},
+				(sv, Some(None)) => Expect {
+					main: Tag::Unknown,
+					alt_unknown: true,
+					fs_loose: Some(vec!["other", sv.and_then(simple_any).as_ref().map_or("other", class_of)]),
+					class: format!("simple-{sname}/full-out-of-vocabulary"),
+				},
+			}
+		}
+		"source" => match source.and_then(Value::as_str).and_then(source_of) {
+			Some(s) => exact(Tag::Source(s), "source".into()),
+			None => exact(Tag::Unknown, "no-source".into()),
+		},
+		"keyboard" => match keycode.and_then(Value::as_str) {
+			Some("eof") => exact(Tag::Keyboard(Keyboard::Eof), "keycode".into()),
+			_ => exact(Tag::Unknown, "no-keycode".into()),
+		},
+		"process" => match pid.and_then(Value::as_u64).and_then(|p| u32::try_from(p).ok()) {
+			Some(p) => exact(Tag::Process(p), "pid".into()),
+			None => exact(Tag::Unknown, "no-pid".into()),
+		},
+		"signal" => match signal.and_then(sig_of) {
+			Some(s) => exact(Tag::Signal(s), "signal".into()),
+			None => exact(Tag::Unknown, "no-signal".into()),
+		},
+		"completion" => {
+			let d = disposition.and_then(Value::as_str);
+			let c = code.and_then(Value::as_i64);
+			let sg = signal.and_then(sig_of);
+			let code_class = match c {
+				None => "absent",
+				Some(0) => "zero",
+				Some(n) if i32::try_from(n).is_ok() => "i32",
+				Some(_) => "wide",
+			};
+			let class = format!("{}/code-{code_class}/{}", d.unwrap_or("no-disposition"), presence("signal", sg.is_some()));
+			let (end, uses_code, uses_signal): (Option<Tag>, bool, bool) = match d {
+				None | Some("unknown") => (Some(Tag::ProcessCompletion(None)), false, false),
+				Some("success") => (Some(Tag::ProcessCompletion(Some(ProcessEnd::Success))), false, false),
+				Some("continued") => (Some(Tag::ProcessCompletion(Some(ProcessEnd::Continued))), false, false),
+				Some("error") => (c.and_then(NonZeroI64::new).map(|n| Tag::ProcessCompletion(Some(ProcessEnd::ExitError(n)))), true, false),
+				Some("stop") => (
+					c.and_then(|n| i32::try_from(n).ok()).and_then(NonZeroI32::new).map(|n| Tag::ProcessCompletion(Some(ProcessEnd::ExitStop(n)))),
+					true,
+					false,
+				),
+				Some("exception") => (
+					c.and_then(|n| i32::try_from(n).ok()).and_then(NonZeroI32::new).map(|n| Tag::ProcessCompletion(Some(ProcessEnd::Exception(n)))),
+					true,
+					false,
+				),
+				Some("signal") => (sg.map(|s| Tag::ProcessCompletion(Some(ProcessEnd::ExitSignal(s)))), false, true),
+				Some(_) => (None, false, false),
+			};
+			// a member this disposition has no use for may be read as a contradiction;
+			// a completion object without a disposition is lossy (snapshot pins "unknown")
+			let stray = (c.is_some() && !uses_code) || (signal.is_some() && !uses_signal);
+			Expect { main: end.unwrap_or(Tag::Unknown), alt_unknown: stray || d.is_none(), fs_loose: None, class }
+		}
+		_ => exact(Tag::Unknown, "any".into()),
+	}
+}
+
+fn judge(kind: &str, exp: &Expect, got: &Tag) -> Option<&'static str> {
+	if *got == exp.main || (exp.alt_unknown && *got == Tag::Unknown) {
+		return None;
+	}
+	if let (Some(classes), Tag::FileEventKind(k)) = (&exp.fs_loose, got) {
+		if classes.contains(&class_of(k)) {
+			return None;
+		}
+	}
+	Some(if *got != Tag::Unknown && got.discriminant_name() != kind_discriminant(kind) {
+		"mistaken-for-another-kind"
+	} else if *got == Tag::Unknown {
+		"unknown-although-complete-and-consistent"
+	} else if exp.main == Tag::Unknown {
+		"tag-although-incomplete-or-contradictory"
+	} else {
+		"wrong-value"
+	})
+}
+
+/// One object through the real parser and the reference. `text` must be the JSON text of `obj`.
+fn eval_decode(kind: &str, f: &[Option<&Value>; 10], text: &str, fs: &[(String, FileEventKind, &'static str)]) -> (Vec<(String, String)>, Option<Tag>) {
+	let exp = model(kind, f, fs);
+	match serde_json::from_str::<Tag>(text) {
+		Err(e) => (vec![(format!("C16/decode/{kind}/{}/rejected", exp.class), format!("{text} fails to parse: {e}; the statement wants {:?}", exp.main))], None),
+		Ok(got) => {
+			let v = judge(kind, &exp, &got)
+				.map(|what| (format!("C16/decode/{kind}/{}/{what}", exp.class), format!("{text} parses to {got:?}; the reference decoder gives {:?}", exp.main)))
+				.into_iter()
+				.collect();
+			(v, Some(got))
+		}
+	}
+}
+
+struct Domain {
+	/// per member: the values it takes (index 0 of the radix = absent)
+	values: [Vec<Value>; 10],
+	/// pre-rendered `,"name":value`
+	frags: [Vec<String>; 10],
+}
+
+impl Domain {
+	fn new(tier: Tier) -> Self {
+		let thorough = matches!(tier, Tier::Thorough);
+		let wide = 1i64 << 40;
+		let values: [Vec<Value>; 10] = [
+			vec![json!("/a/b"), json!("rel/c")],
+			if thorough { vec![json!("dir"), json!("symlink"), json!("file"), json!("other")] } else { vec![json!("dir"), json!("symlink")] },
+			if thorough { vec![json!("create"), json!("other"), json!("access"), json!("modify"), json!("remove")] } else { vec![json!("create"), json!("other")] },
+			if thorough {
+				["Create(File)", "Remove(Folder)", "Bogus(Thing)", "Any", "Other", "Access(Close(Write))", "Modify(Name(Both))", "Modify(Data(Content))", "Modify(Metadata(Any))"]
+					.iter()
+					.map(|s| json!(s))
+					.collect()
+			} else {
+				vec![json!("Create(File)"), json!("Remove(Folder)"), json!("Bogus(Thing)")]
+			},
+			vec![json!("filesystem"), json!("internal")],
+			vec![json!("eof")],
+			vec![json!(123), json!(u32::MAX)],
+			if thorough { vec![json!("SIGINT"), json!(34), json!(0), json!("SIGUSR2")] } else { vec![json!("SIGINT"), json!(34)] },
+			["unknown", "success", "error", "signal", "stop", "exception", "continued"].iter().map(|s| json!(s)).collect(),
+			if thorough {
+				vec![json!(12), json!(0), json!(-1), json!(i32::MAX), json!(i64::from(i32::MAX) + 1), json!(i32::MIN), json!(i64::from(i32::MIN) - 1), json!(i64::MIN)]
+			} else {
+				vec![json!(12), json!(0), json!(wide), json!(-1)]
+			},
+		];
+		let frags = std::array::from_fn(|i| values[i].iter().map(|v| format!(",\"{}\":{v}", FIELDS[i])).collect());
+		Domain { values, frags }
+	}
+	fn radices(&self) -> Vec<usize> {
+		let mut r = vec![KINDS.len()];
+		r.extend(self.values.iter().map(|v| v.len() + 1));
+		r.push(2); // unknown extra member
+		r
+	}
+	fn total(&self) -> u64 {
+		self.radices().iter().map(|&r| r as u64).product()
+	}
+}
+
+fn render(kind: &str, frag: &[Option<&str>; 10], extra: bool) -> String {
+	let mut s = String::with_capacity(160);
+	s.push_str("{\"kind\":\"");
+	s.push_str(kind);
+	s.push('"');
+	for f in frag.iter().flatten() {
+		s.push_str(f);
+	}
+	if extra {
+		s.push_str(",\"");
+		s.push_str(EXTRA_MEMBER);
+		s.push_str("\":[1]");
+	}
+	s.push('}');
+	s
+}
+
+fn decode_range(dom: &Domain, fs: &[(String, FileEventKind, &'static str)], from: u64, to: u64, deadline: Instant) -> EnumOut {
+	let mut out = EnumOut::default();
+	let rad = dom.radices();
+	for idx in from..to {
+		if idx % 8192 == 0 && Instant::now() > deadline {
+			out.caps.push("C16 decoder sweep stopped by the wall-clock cap".into());
+			break;
+		}
+		let mut rest = idx;
+		let mut digit = [0usize; 12];
+		for (d, r) in digit.iter_mut().zip(&rad) {
+			*d = (rest % *r as u64) as usize;
+			rest /= *r as u64;
+		}
+		let kind = KINDS[digit[0]];
+		let f: [Option<&Value>; 10] = std::array::from_fn(|i| digit[i + 1].checked_sub(1).map(|j| &dom.values[i][j]));
+		let fr: [Option<&str>; 10] = std::array::from_fn(|i| digit[i + 1].checked_sub(1).map(|j| dom.frags[i][j].as_str()));
+		let text = render(kind, &fr, digit[11] == 1);
+		out.states += 1;
+		out.evaluations += 1;
+		let (viol, got) = eval_decode(kind, &f, &text, fs);
+		if let Some(g) = got.filter(|g| *g != Tag::Unknown) {
+			out.nontrivial_mark(format!("{g:?}"));
+		}
+		for (k, d) in viol {
+			out.violate(k, d, json!({"part": "decode", "text": text}));
+		}
+	}
+	out
+}
+
+/// Re-run one recorded decoder case from its JSON text.
+fn replay_decode(text: &str, fs: &[(String, FileEventKind, &'static str)]) -> Vec<(String, String)> {
+	let Ok(Value::Object(o)) = serde_json::from_str::<Value>(text) else {
+		return vec![("C16/replay/bad-input".into(), format!("{text} is not a JSON object"))];
+	};
+	let kind = o.get("kind").and_then(Value::as_str).unwrap_or("none").to_string();
+	let f: [Option<&Value>; 10] = std::array::from_fn(|i| o.get(FIELDS[i]));
+	eval_decode(&kind, &f, text, fs).0
+}
+
+pub fn replay(input: &Value) -> Vec<(String, String)> {
+	let fs = fs_table();
+	match input["part"].as_str() {
+		Some("roundtrip") => {
+			let syms: Option<Vec<Sym>> = input["tags"].as_array().map(|a| a.iter().map(|s| build(s, &fs)).collect()).unwrap_or(None);
+			let Some(syms) = syms else {
+				return vec![("C16/replay/bad-input".into(), format!("cannot rebuild tags from {}", input["tags"]))];
+			};
+			let refs: Vec<&Sym> = syms.iter().collect();
+			eval_roundtrip(&refs, input["meta"].as_u64().unwrap_or(0) as usize).0
+		}
+		Some("decode") => replay_decode(input["text"].as_str().unwrap_or(""), &fs),
+		_ => vec![("C16/replay/bad-input".into(), "unknown part".into())],
+	}
+}
+
+// ---------------------------------------------------------------------------------------
+
+fn ranges(total: u64, pieces: u64, seed: u64) -> Vec<(u64, u64)> {
+	let step = total.div_ceil(pieces.max(1)).max(1);
+	let mut v: Vec<(u64, u64)> = (0..total).step_by(step as usize).map(|a| (a, (a + step).min(total))).collect();
+	if !v.is_empty() {
+		let k = (seed % v.len() as u64) as usize;
+		v.rotate_left(k); // the seed only permutes the work order
+	}
+	v
+}
+
+pub fn run(tier: Tier, seed: u64) -> EnumOut {
+	let t0 = Instant::now();
+	let deadline = t0 + Duration::from_secs(match tier {
+		Tier::Quick => 25,
+		Tier::Thorough => 480,
+	});
+	let mut out = EnumOut::new(
+		"round trip: every tag sequence up to the length bound over the complete tag alphabet x 4 metadata shapes, real to_string/from_str + documented-shape comparison; decoder: every known-kind object over the member grammar, real from_str::<Tag> vs the reference decoder. non-trivial = distinct serialised tag/metadata objects other than the empty event's, plus distinct decoder results other than Unknown",
+	);
+	out.assumptions = vec![
+		"documented format = doc/watchexec.1.md (--emit-events-to), type docs, and the signal names pinned by crates/events/tests/snapshots".into(),
+		"ill-typed or out-of-vocabulary member values are outside the statement (counted in ill_typed_*, not judged)".into(),
+		"debatable contradictions (simple vs full, stray code/signal, full outside the vocabulary) may give Unknown or the same kind's tag; never another kind, never an error".into(),
+	];
+	let fs = fs_table();
+	if fs.len() != 41 {
+		out.machinery = Some(format!("kind table has {} rows, expected 41", fs.len()));
+		return out;
+	}
+	let specs = alphabet_specs(&fs);
+	let syms: Vec<Sym> = match specs.iter().map(|s| build(s, &fs)).collect::<Option<Vec<_>>>() {
+		Some(s) => s,
+		None => {
+			out.machinery = Some("alphabet spec does not build".into());
+			return out;
+		}
+	};
+	let n = syms.len() as u64;
+	let maxlen: u32 = match tier {
+		Tier::Quick => 2,
+		Tier::Thorough => 3,
+	};
+	out.extra.insert("alphabet_tags".into(), json!(n));
+	out.extra.insert("max_tags_per_event".into(), json!(maxlen));
+
+	// ---- Part R
+	let seqs: u64 = (0..=maxlen).map(|l| n.pow(l)).sum();
+	let total_r = seqs * N_META as u64;
+	let rs = ranges(total_r, 512, seed);
+	let part_r = par_map(&rs, 16, |chunk, _| {
+		let mut o = EnumOut::default();
+		'outer: for &(a, b) in chunk {
+			for idx in a..b {
+				if idx % 8192 == 0 && Instant::now() > deadline {
+					o.caps.push("C16 round-trip enumeration stopped by the wall-clock cap".into());
+					break 'outer;
+				}
+				let meta = (idx % N_META as u64) as usize;
+				let mut s = idx / N_META as u64;
+				// sequence number -> (length, digits)
+				let mut len = 0u32;
+				while s >= n.pow(len) {
+					s -= n.pow(len);
+					len += 1;
+				}
+				let mut tags: Vec<&Sym> = Vec::with_capacity(len as usize);
+				for _ in 0..len {
+					tags.push(&syms[(s % n) as usize]);
+					s /= n;
+				}
+				o.states += 1;
+				o.evaluations += 1;
+				let (viol, text) = eval_roundtrip(&tags, meta);
+				if len <= 1 {
+					if let Some(t) = &text {
+						if len == 1 || meta != 0 {
+							o.nontrivial_mark(t);
+						}
+						if (len == 1 && meta == 1 && idx % 97 == 5) || (len == 0 && meta == 2) {
+							o.sample(json!({"part": "roundtrip", "tags": tags.iter().map(|s| s.spec.clone()).collect::<Vec<_>>(), "meta": meta, "text": t, "violations": viol.len()}));
+						}
+					}
+				}
+				for (k, d) in viol {
+					o.violate(k, d, json!({"part": "roundtrip", "tags": tags.iter().map(|s| s.spec.clone()).collect::<Vec<_>>(), "meta": meta}));
+				}
+			}
+		}
+		o
+	});
+	out.extra.insert("roundtrip_events".into(), json!(part_r.states));
+	out.merge(part_r);
+
+	// ---- Part D: product grammar
+	let dom = Domain::new(tier);
+	let total_d = dom.total();
+	let ds = ranges(total_d, 512, seed);
+	let part_d = par_map(&ds, 16, |chunk, _| {
+		let mut o = EnumOut::default();
+		for &(a, b) in chunk {
+			o.merge(decode_range(&dom, &fs, a, b, deadline));
+		}
+		o
+	});
+	out.extra.insert("decoder_objects_product".into(), json!(part_d.states));
+	out.merge(part_d);
+
+	// ---- Part D: complete simple x full table under every kind
+	let simples: Vec<Option<Value>> = std::iter::once(None).chain(["access", "create", "modify", "remove", "other"].iter().map(|s| Some(json!(s)))).collect();
+	let fulls: Vec<Option<Value>> =
+		std::iter::once(None).chain(fs.iter().map(|(n, _, _)| Some(json!(n)))).chain(std::iter::once(Some(json!("Bogus(Thing)")))).collect();
+	let mut table = 0u64;
+	for kind in KINDS {
+		for s in &simples {
+			for fl in &fulls {
+				let mut f: [Option<&Value>; 10] = [None; 10];
+				f[2] = s.as_ref();
+				f[3] = fl.as_ref();
+				let mut o = Map::new();
+				o.insert("kind".into(), json!(kind));
+				if let Some(s) = s {
+					o.insert("simple".into(), s.clone());
+				}
+				if let Some(fl) = fl {
+					o.insert("full".into(), fl.clone());
+				}
+				let text = Value::Object(o).to_string();
+				table += 1;
+				out.states += 1;
+				out.evaluations += 1;
+				let (viol, got) = eval_decode(kind, &f, &text, &fs);
+				if let Some(g) = got.as_ref().filter(|g| **g != Tag::Unknown) {
+					out.nontrivial_mark(format!("{g:?}"));
+				}
+				if kind == "fs" && (table % 61 == 7) {
+					out.sample(json!({"part": "decode", "text": text, "parsed": got.map(|g| format!("{g:?}")), "violations": viol.len()}));
+				}
+				for (k, d) in viol {
+					out.violate(k, d, json!({"part": "decode", "text": text}));
+				}
+			}
+		}
+	}
+	out.extra.insert("decoder_objects_fs_table".into(), json!(table));
+
+	// ---- informational: ill-typed / out-of-vocabulary values (outside the statement)
+	let ill: [(&str, Value); 10] = [
+		("absolute", json!(17)),
+		("filetype", json!("bogus")),
+		("simple", json!("rename")),
+		("full", json!(17)),
+		("source", json!("network")),
+		("keycode", json!("ctrl-d")),
+		("pid", json!(-1)),
+		("signal", json!("SIGBOGUS")),
+		("disposition", json!("crashed")),
+		("code", json!("12")),
+	];
+	let (mut ill_total, mut ill_rejected) = (0u64, 0u64);
+	for kind in KINDS {
+		for (name, val) in &ill {
+			let mut o = Map::new();
+			o.insert("kind".into(), json!(kind));
+			o.insert((*name).to_string(), val.clone());
+			let text = Value::Object(o).to_string();
+			ill_total += 1;
+			if serde_json::from_str::<Tag>(&text).is_err() {
+				ill_rejected += 1;
+			}
+		}
+	}
+	out.extra.insert("ill_typed_objects_probed".into(), json!(ill_total));
+	out.extra.insert("ill_typed_objects_rejected_by_parser".into(), json!(ill_rejected));
+
+	out.caps.sort();
+	out.caps.dedup();
+	out
 }
